@@ -628,6 +628,10 @@ func bFor(intp *Interpreter) error {
 		} else if err != nil {
 			return err
 		}
+		if next := val + increment; (increment > 0) != (next > val) && increment != 0 {
+			// the control variable would leave the integer range
+			break
+		}
 		val += increment
 	}
 	return nil
